@@ -45,6 +45,10 @@ pub fn widths(tier: Tier) -> Vec<u32> {
 }
 
 fn gen_shapes(tier: Tier, seed: u64) -> Vec<Sh> {
+    gen_shapes_opt(tier, seed, true)
+}
+
+fn gen_shapes_opt(tier: Tier, seed: u64, with_random: bool) -> Vec<Sh> {
     let mut out = vec![];
     for &w in widths(tier).iter() {
         let mut sigs = shapes::signatures(Ty::BV(w), w, false);
@@ -65,7 +69,7 @@ fn gen_shapes(tier: Tier, seed: u64) -> Vec<Sh> {
             out.extend(shapes::depth2_with(sig, w, false, LeafMode::Minimal));
         }
     }
-    let n = tier.pick(3000usize, 40000usize);
+    let n = if with_random { tier.pick(3000usize, 40000usize) } else { 0 };
     let cfg = RandCfg { max_depth: 4, div: false, widths: vec![1, 2, 8, 33, 64, 65, 128, 129] };
     for i in 0..n {
         let mut rng = Rng::new(seed, "C06-dag", i as u64);
@@ -449,6 +453,191 @@ fn validation_part(rep: &mut Report, tier: Tier, seed: u64) {
 }
 
 // ---------------------------------------------------------------------------------------------
+// builders: the expression that eval is given. Added after an independently seeded change made a builder
+// return a node with another meaning (1-bit signed comparison built as the unsigned one): evaluation of
+// that node is right, evaluation of what the user asked for is not, and a reference that destructures the
+// node cannot tell. For every shape the solver decides, for all symbol values,
+//     RefSmt(node built through the Context methods / through the Builder closure API)  =  SMT-LIB text of the shape itself.
+
+const SITE_B: &str = "expr::Context operator methods / expr::Builder (the expression handed to eval)";
+
+fn builder_part(rep: &mut Report, tier: Tier, seed: u64) {
+    // depth 1 (all leaf kinds) and depth 2 (peepholes that look at a child); the random DAGs of part V add nothing here
+    let mut shapes_all = gen_shapes_opt(tier, seed, false);
+    if tier == Tier::Quick {
+        // quick tier: every third shape (offset by the seed)
+        let off = (seed % 3) as usize;
+        shapes_all = shapes_all.into_iter().enumerate().filter(|(i, _)| i % 3 == off).map(|(_, s)| s).collect();
+    }
+    // the division / remainder builders too (eval does not implement them, the builders exist)
+    for &w in [1u32, 2, 8, 65].iter() {
+        for sig in shapes::signatures(Ty::BV(w), w, true).iter().filter(|s| matches!(s.op, Op::Sdiv | Op::Udiv | Op::Smod | Op::Srem | Op::Urem)) {
+            shapes_all.extend(shapes::depth1(sig, LeafMode::Minimal));
+        }
+    }
+    let parts: Vec<Report> = shapes_all
+        .par_chunks(400)
+        .map(|chunk| {
+            let mut r = Report::new("C06", tier, seed, "other");
+            let mut z3 = Proc::new(Which::Z3New, 10_000);
+            let mut hard = miter::Portfolio::new(20_000);
+            let _ = &mut hard;
+            for sub in chunk.chunks(100) {
+                let mut ctx = Context::default();
+                struct Job {
+                    sh: usize,
+                    api: &'static str,
+                    e: ExprRef,
+                    body: String,
+                    decls: Vec<(String, Ty, ExprRef)>,
+                }
+                let mut jobs: Vec<Job> = vec![];
+                for (i, sh) in sub.iter().enumerate() {
+                    let want_ty = sh.ty();
+                    for api in ["Context", "Builder"] {
+                        r.count("obligations", 1);
+                        r.count("builder_obligations", 1);
+                        let built = crate::panics::guarded(|| if api == "Context" { sh.build(&mut ctx) } else { sh.build_via_builder(&mut ctx) });
+                        let e = match built {
+                            Ok(e) => e,
+                            Err((loc, msg)) => {
+                                let (op, class) = match sh {
+                                    Sh::Op(o, _, _) => (o.name().to_string(), format!("{:?}", want_ty).to_lowercase()),
+                                    _ => ("leaf".into(), String::new()),
+                                };
+                                let _ = class;
+                                r.violation(Role::new(SITE_B, &op, &format!("{api};panic@{loc}")), format!("building {} through the {api} API panics: {msg}", sh.show()), json!({"part": "builders", "shape": sh.to_json(), "shape_text": sh.show(), "api": api}));
+                                continue;
+                            }
+                        };
+                        let mut enc = RefEnc::new(&ctx, "n");
+                        let (term, ty) = match enc.enc(e) {
+                            Ok(x) => x,
+                            Err(m) => {
+                                r.violation(Role::new(SITE_B, top_op(sh), &format!("{api};ill-typed")), format!("{} built through the {api} API is ill-typed: {}", sh.show(), m.0), json!({"part": "builders", "shape": sh.to_json(), "shape_text": sh.show(), "api": api}));
+                                continue;
+                            }
+                        };
+                        if ty != want_ty {
+                            r.violation(Role::new(SITE_B, top_op(sh), &format!("{api};type")), format!("{} built through the {api} API has type {ty:?}, the operator application has type {want_ty:?}", sh.show()), json!({"part": "builders", "shape": sh.to_json(), "shape_text": sh.show(), "api": api}));
+                            continue;
+                        }
+                        // all symbols of the shape, under the names RefEnc uses
+                        let mut syms = vec![];
+                        sh.symbols(&mut syms);
+                        let mut decls: Vec<(String, Ty, ExprRef)> = vec![];
+                        let mut names: std::collections::HashMap<(u8, Ty), String> = Default::default();
+                        for (si, st) in syms.iter() {
+                            let se = Sh::Sym(*si, *st).build(&mut ctx);
+                            let n = format!("s!{}", usize::from(se));
+                            names.insert((*si, *st), n.clone());
+                            decls.push((n, *st, se));
+                        }
+                        // RefEnc borrowed ctx immutably before the symbols were (re)built: encode again
+                        let mut enc = RefEnc::new(&ctx, "n");
+                        let (term, _) = enc.enc(e).expect("encoded before");
+                        let _ = term.len();
+                        let (sh_text, _) = sh.smt_text(&|i, t| names[&(i, t)].clone());
+                        let mut body = String::new();
+                        for (n, t, _) in decls.iter() {
+                            body.push_str(&format!("(declare-const {n} {})\n", refsmt_sort(*t)));
+                        }
+                        for (n, t, se) in enc.decls.iter() {
+                            if !decls.iter().any(|d| d.2 == *se) {
+                                body.push_str(&format!("(declare-const {n} {})\n", refsmt_sort(*t)));
+                            }
+                        }
+                        body.push_str(&enc.defs);
+                        body.push_str(&format!("(assert (distinct {term} {sh_text}))\n"));
+                        jobs.push(Job { sh: i, api, e, body, decls });
+                    }
+                }
+                let answers = z3.check_batch(&jobs.iter().map(|j| j.body.clone()).collect::<Vec<_>>());
+                for (j, a) in jobs.iter().zip(answers.into_iter()) {
+                    let sh = &sub[j.sh];
+                    if a == Answer::Unsat {
+                        r.count("discharged", 1);
+                        continue;
+                    }
+                    // decide again on its own, with a model
+                    z3.push();
+                    let a2 = z3.check(&j.body);
+                    match a2 {
+                        Answer::Unsat => {
+                            z3.pop();
+                            r.count("discharged", 1);
+                        }
+                        Answer::Sat => {
+                            let model = miter::read_model(&mut z3, &j.decls);
+                            z3.pop();
+                            let Ok(model) = model else {
+                                r.inconc(json!({"shape": sh.show(), "why": "model not readable"}));
+                                continue;
+                            };
+                            // native replay: the real node under the real evaluator (or the node-level reference for
+                            // division) against the shape-level reference
+                            let env = miter::model_env(&model);
+                            let by_name: std::collections::HashMap<String, Val> = model.iter().map(|(e, _, v)| (ctx.get_symbol_name(*e).unwrap_or("").to_string(), v.clone())).collect();
+                            let want = sh.eval_ref(&|i, t| by_name.get(&shapes::sym_name(i, t)).cloned().unwrap_or_else(|| zero_val(t)));
+                            let got = if has_div(sh) { bigeval::eval(&ctx, &env, j.e).ok() } else { crate::panics::guarded(|| real_eval_val(&ctx, &model, j.e)).ok().flatten() };
+                            r.count("disagreements_checked", 1);
+                            match got {
+                                Some(g) if !bigeval::vals_equal(&g, &want) => {
+                                    r.violation(
+                                        Role::new(SITE_B, top_op(sh), &format!("{};builds-a-node-with-another-meaning;{}", j.api, width_class(sh))),
+                                        format!("{} built through the {} API is the node {}, which evaluates to {} under [{}]; the operator application denotes {}", sh.show(), j.api, crate::c01::show(&ctx, j.e), g.show(),
+                                            model.iter().map(|(_, n, v)| format!("{n}={}", v.show())).collect::<Vec<_>>().join(", "), want.show()),
+                                        json!({"part": "builders", "shape": sh.to_json(), "shape_text": sh.show(), "api": j.api, "node": crate::c01::show(&ctx, j.e), "smt2": j.body}),
+                                    );
+                                }
+                                _ => r.undecided.push(format!("ENCODING-ERROR: builders: solver model for {} does not reproduce natively", sh.show())),
+                            }
+                        }
+                        other => {
+                            z3.pop();
+                            r.inconc(json!({"shape": sh.show(), "why": format!("{other:?}")}));
+                        }
+                    }
+                }
+            }
+            r.count("solver_time_ms", z3.solver_time.as_millis() as u64);
+            r.count("solver_queries", z3.queries);
+            r
+        })
+        .collect();
+    for p in parts {
+        rep.merge(p);
+    }
+}
+
+fn top_op(sh: &Sh) -> &'static str {
+    match sh {
+        Sh::Op(o, _, _) => o.name(),
+        Sh::Sym(..) => "sym",
+        Sh::Lit(..) => "lit",
+    }
+}
+
+fn width_class(sh: &Sh) -> String {
+    let w = match sh {
+        Sh::Op(_, _, k) => k.first().and_then(|c| c.ty().bv()).or(sh.ty().bv()).unwrap_or(0),
+        _ => sh.ty().bv().unwrap_or(0),
+    };
+    if w == 1 { "w=1".into() } else if w <= 64 { "1<w<=64".into() } else { "w>64".into() }
+}
+
+fn zero_val(t: Ty) -> Val {
+    match t {
+        Ty::BV(w) => Val::BV(BigUint::from(0u32), w),
+        Ty::Arr(iw, dw) => Val::Arr { iw, dw, default: BigUint::from(0u32), map: Default::default() },
+    }
+}
+
+fn refsmt_sort(t: Ty) -> String {
+    crate::refsmt::sort(t)
+}
+
+// ---------------------------------------------------------------------------------------------
 // dispatch: source-derived encoding
 
 #[derive(Clone, Debug)]
@@ -812,6 +1001,7 @@ pub fn run(tier: Tier, seed: u64, replay: Option<serde_json::Value>) -> i32 {
     }
     let methods = dispatch_part(&mut rep, tier);
     validation_part(&mut rep, tier, seed);
+    builder_part(&mut rep, tier, seed);
     // kernels: results of the Kani runner (written by ./check before this binary is started)
     let kpath = crate::report::verif_root().join(".build").join("kani_results.json");
     let mut kernel_summary = json!({"status": "kani runner did not produce results"});
